@@ -290,6 +290,31 @@ def _pipeline(ctx, fq: str, metric_cls: str, P: str):
                f"{f.name}(): {na} precedes {nb}" if ok else
                f"{f.name}(): {nb} at {b[0].where} is executed before {na} "
                f"at {a[-1].where}", key=f"{_R(P, 4)}:{f.name}:{na}<{nb}")
+    for e in al:
+        bb = e.data["bound"] or {}
+        cs = tm.param("correct_scale")
+        want_only = T("boolop", "And", (cs, T("unop", "Not",
+                                               tm.param("align"))))
+        ok = e.data.get("recv") is est and bb.get("traj_ref") is ref and \
+            bb.get("correct_scale") is cs and \
+            bb.get("correct_only_scale") is want_only and \
+            bb.get("n") is tm.param("n_to_align")
+        ctx.ob(_R(P, 5), e, ok,
+               f"{f.name}(): estimate.align(reference, correct_scale, "
+               f"only_scale = correct_scale and not align, n = n_to_align)"
+               if ok else
+               f"{f.name}(): align receives "
+               f"{ {k: fmt(v) for k, v in bb.items()} } on "
+               f"{fmt(e.data.get('recv'))} — expected (traj_ref, "
+               f"correct_scale, correct_scale and not align, n_to_align)",
+               key=f"{_R(P, 5)}:{f.name}:align-args")
+    for e in og:
+        bb = e.data["bound"] or {}
+        ok = e.data.get("recv") is est and bb.get("traj_ref") is ref
+        ctx.ob(_R(P, 5), e, ok,
+               f"{f.name}(): estimate.align_origin(reference)" if ok else
+               f"{f.name}(): align_origin wiring deviates",
+               key=f"{_R(P, 5)}:{f.name}:origin-args")
     recs = {e.data.get("recv") for e in pj}
     planes = {(e.data["bound"] or {}).get("plane") for e in pj}
     ok = recs == {est, ref} and planes == {plane} and \
